@@ -115,14 +115,14 @@ Proof.
   - exfalso. pose proof (find_none _ _ E s Hs) as X. cbn beta in X. rewrite Ea, El, !N.eqb_refl in X. discriminate X.
 Qed.
 
-Lemma gl_cdb : forall sep stream, Permutation stream (R_cdb o serial f) ->
-  forall m c, wf_client c -> exists r, cdb_get_location sep stream m c = Ok r /\
-    hit_of r = lpm (file_nets rs m) (cfam c) (search_addr true c) (eff_plen c).
+(* C03 on the compiled CDB: GetLocationByMap over the Put stream is longest-prefix match over the
+   subnets the file declares (both prefix-set modes) *)
+Theorem cdb_compiled_is_lpm : forall sep stream, Permutation stream (R_cdb o serial f) ->
+  forall m a bits ones plen, a < two128 -> client_plen a bits ones plen ->
+  cdb_get_location sep stream m (mkClient (Some a) bits ones) =
+  Ok (lpm_result (lpm (file_nets rs m) (fam (clean_mask a plen)) (clean_mask a plen) plen)).
 Proof.
-  intros sep stream P.
-  apply (c03_shape_suffices (file_nets rs) (cdb_get_location sep stream)).
-  intros m a bits ones plen Halt Hc. rewrite c03_lpm_result_eq. apply c03_client_plen_eq in Hc.
-  unfold file_nets.
+  intros sep stream P m a bits ones plen Halt Hc. unfold file_nets.
   destruct (R_cdb_prefix_vals o serial f WF LOK) as (V47 & V52 & V54). fold rs in V47, V52, V54.
   apply (cdb_is_lpm_gen sep (net_dfile rs) stream m a bits ones plen (Hw_nets m)
            (stream_single _ stream _ _ P V47) (stream_single _ stream _ _ P V52) (stream_single _ stream _ _ P V54)); [| |exact Halt|exact Hc].
@@ -136,5 +136,15 @@ Proof.
     + exfalso. apply find_some in E as [Hs' C]. apply andb_true_iff in C as [C1 C2]. apply N.eqb_eq in C1, C2.
       apply (Hno s'); [fold (file_nets rs m); rewrite <- declared_subnets_nets; exact Hs' | auto].
     + exact (stream_none _ stream _ P V).
+Qed.
+
+Lemma gl_cdb : forall sep stream, Permutation stream (R_cdb o serial f) ->
+  forall m c, wf_client c -> exists r, cdb_get_location sep stream m c = Ok r /\
+    hit_of r = lpm (file_nets rs m) (cfam c) (search_addr true c) (eff_plen c).
+Proof.
+  intros sep stream P.
+  apply (c03_shape_suffices (file_nets rs) (cdb_get_location sep stream)).
+  intros m a bits ones plen Halt Hc. rewrite c03_lpm_result_eq. apply c03_client_plen_eq in Hc.
+  exact (cdb_compiled_is_lpm sep stream P m a bits ones plen Halt Hc).
 Qed.
 End Lookups.
